@@ -1,0 +1,18 @@
+//go:build !verif
+
+package storage
+
+// No-op instrumentation points. Build with -tags verif to enable (see
+// verif_on.go).
+
+func vWalWrite(kind int, n int)         {}
+func vWalSync()                         {}
+func vWalDone()                         {}
+func vPageWrite(off uint64)             {}
+func vHeaderWrite()                     {}
+func vFlushBegin()                      {}
+func vFlushEnd()                        {}
+func vAutoFlush(b bool) bool            { return b }
+func vCacheCap() int                    { return 0 }
+func vMarkDirty(off uint64, lsn uint64) {}
+func vFetchMiss(off uint64)             {}
